@@ -1,8 +1,9 @@
 (* Evaluation of the composite model Trees.jrun on whole queries recorded from the
    real engine (correspondence check of C01). Sample values are multiples of 1/4,
    carried as integers (4 * value). *)
-From Coq Require Import List ZArith NArith Bool.
-From Verif Require Import Base Grid Agg Func Bin BinCases Compose EndToEnd Trees.
+From Coq Require Import List ZArith NArith Bool Lia.
+From Verif Require Import Base Grid Range RangeOrd Agg Func Bin BinCases Compose EndToEnd Trees.
+From Verif Require Export TreeOps.
 Import ListNotations.
 Open Scope Z_scope.
 
